@@ -124,13 +124,38 @@ func vErrEnum(err error) int {
 	return 9
 }
 
-// a returned byte string as a Coq term: a slice of the stream when it is one, raw hex otherwise
+// a returned byte string as a Coq term: a concatenation of slices of the stream (one slice
+// whenever the bytes are a contiguous part of it), raw hex for bytes that are not in the stream
 func vData(stream, d []byte) string {
 	if len(d) == 0 {
-		return "(DS 0 0)"
+		return "(DS [])"
 	}
 	if i := bytes.Index(stream, d); i >= 0 {
-		return fmt.Sprintf("(DS %d %d)", i, len(d))
+		return fmt.Sprintf("(DS [(%d,%d)])", i, len(d))
+	}
+	var parts []string
+	i := 0
+	for i < len(d) && len(parts) < 64 {
+		w := 8
+		if len(d)-i < w {
+			w = len(d) - i
+		}
+		j := bytes.Index(stream, d[i:i+w])
+		if j < 0 {
+			break
+		}
+		k := w
+		for i+k < len(d) && j+k < len(stream) && d[i+k] == stream[j+k] {
+			k++
+		}
+		parts = append(parts, fmt.Sprintf("(%d,%d)", j, k))
+		i += k
+	}
+	if i == len(d) {
+		return "(DS [" + strings.Join(parts, "; ") + "])"
+	}
+	if len(d) > 2000 {
+		return "(DH " + cHex(d[:2000]) + ")" // cannot match the model anyway
 	}
 	return "(DH " + cHex(d) + ")"
 }
